@@ -64,11 +64,11 @@ type vrtSchedule struct {
 	Late  []int            `json:"late"`
 	// Stride: the k-th task of a source carries task id k*Stride and a batch ending before k carries the exclusive high
 	// watermark k*Stride-1 (Stride > 1): Temporal's task ids are sparse and its watermark is not "last id + 1"
-	Stride int      `json:"stride"`
+	Stride int `json:"stride"`
 	// Rawless: tasks carry no raw_task_info (what a sender older than the field sends); namespace id, workflow id and run id are
 	// in the task attributes only
-	Rawless bool `json:"rawless"`
-	Cmds   []vrtCmd `json:"cmds"`
+	Rawless bool     `json:"rawless"`
+	Cmds    []vrtCmd `json:"cmds"`
 }
 
 type vrtTok struct {
@@ -95,7 +95,9 @@ type vrtHarness struct {
 	cmdWait time.Duration
 	holdTgt map[int]chan struct{} // target shard -> release channel while its sender is to be held after close(sendMsgChan)
 	heldTgt map[int]bool
-	idPool  map[[2]int][3]string // (ownerA, ownerB) -> nsA, nsB, wf with hash(nsA,wf)=ownerA and hash(nsB,wf)=ownerB
+	ackHold map[int]string        // source shard -> "armed" | "blocked": its receiver is (to be) parked inside Send of an ack
+	ackGate map[int]chan struct{} // release channel of a parked Send
+	idPool  map[[2]int][3]string  // (ownerA, ownerB) -> nsA, nsB, wf with hash(nsA,wf)=ownerA and hash(nsB,wf)=ownerB
 	wfPool  map[int][]string
 }
 
@@ -215,7 +217,23 @@ func (c *vrtSrcStream) Send(req *adminservice.StreamWorkflowReplicationMessagesR
 	ev := map[string]interface{}{"ev": "SrcAck", "s": c.s, "inc": c.inc, "a": a, "ka": ka}
 	c.h.srcAck[c.s] = a
 	c.h.emit(ev)
+	// "holdack": this Send (the ack has been handed to the stream) blocks until "releaseack": the receiver's ack loop is parked,
+	// later acks for this source queue up in its ack channel
+	var gate chan struct{}
+	if c.h.ackHold[c.s] == "armed" && !ka {
+		c.h.ackHold[c.s] = "blocked"
+		gate = make(chan struct{})
+		c.h.ackGate[c.s] = gate
+		c.h.emit(map[string]interface{}{"ev": "SrcAckHeld", "s": c.s})
+	}
 	c.h.mu.Unlock()
+	if gate != nil {
+		select {
+		case <-gate:
+		case <-c.broken:
+		case <-c.ctx.Done():
+		}
+	}
 	return nil
 }
 
@@ -431,6 +449,10 @@ func (h *vrtHarness) reset(sc *vrtSchedule) {
 	h.tokens, h.orig = map[string]vrtTok{}, map[string]*replicationv1.ReplicationTask{}
 	h.nextID, h.srcAck = map[int]int64{}, map[int]int64{}
 	h.holdTgt, h.heldTgt = map[int]chan struct{}{}, map[int]bool{}
+	for _, g := range h.ackGate {
+		close(g)
+	}
+	h.ackHold, h.ackGate = map[int]string{}, map[int]chan struct{}{}
 	h.wfByTgt = map[int]string{}
 	h.wfPool = map[int][]string{}
 	h.idPool = map[[2]int][3]string{}
@@ -701,6 +723,24 @@ func (h *vrtHarness) exec(c vrtCmd) bool {
 		}
 		h.log(map[string]interface{}{"ev": "TgtGone", "t": c.T, "inc": srv.inc})
 		return true
+	case "holdack":
+		h.mu.Lock()
+		h.ackHold[c.S] = "armed"
+		h.emit(map[string]interface{}{"ev": "SrcAckArm", "s": c.S})
+		h.mu.Unlock()
+		return true
+	case "releaseack":
+		h.mu.Lock()
+		g := h.ackGate[c.S]
+		st := h.ackHold[c.S]
+		delete(h.ackGate, c.S)
+		delete(h.ackHold, c.S)
+		h.emit(map[string]interface{}{"ev": "SrcAckRelease", "s": c.S, "was": st})
+		h.mu.Unlock()
+		if g != nil {
+			close(g)
+		}
+		return st == "blocked"
 	case "holdtgt":
 		// break the target stream and hold its sender right after close(sendMsgChan): closed but still registered
 		tg := h.tgts[c.T]
